@@ -365,7 +365,7 @@ def run_plan(pid, tier, seed, extra_cov=None, t0=None):
         for k in ("states", "transitions", "traces_validated_against_impl", "evaluations", "distinct_nontrivial"):
             cov[k] = cov.get(k, 0) + int(extra_cov.get(k, 0))
     C.write_evidence(pid, tier, seed, "exploration" if pid == "C13" else "model_checking", cov, time.time() - t0, ASSUME,
-                     violations=len(violations))
+                     violations=len(violations) + int((extra_cov or {}).get("leg_violations", 0)))
     return 1 if violations else 0
 
 
